@@ -20,7 +20,11 @@ ID = "C09"
 PROPS_FILE = "Props/C09.v"
 IMPORTS = "From Verde Require Import Lib.QList Model.BlockReduce Model.Weights Model.BlockGeo."
 SHARD = 40
-RULE = ("a fixed geometry stream (c09.geometry_configs: spacings at exact half-integer ratios extent/spacing 0.5, 1.5, 2.5, 4.5 "
+RULE = ("every case of every stream configures the estimator by one of five routes in fixed shares (one fifth each, cycling in generation "
+        "order): constructor arguments; construction with deliberately different options followed by set_params(**all options); the same "
+        "followed by plain attribute assignment of every option; sklearn.base.clone of a configured instance; construction with one or two "
+        "options different (cycling over all options), one filter() call, then those options changed (set_params / assignment alternately) - the "
+        "observed filter() must follow the options in force when it is called and equal a constructor-configured instance bitwise. Streams: a fixed geometry stream (c09.geometry_configs: spacings at exact half-integer ratios extent/spacing 0.5, 1.5, 2.5, 4.5 "
         "independently in both directions, adjust=region and adjust=spacing with non-dividing scalar and (north, east) spacings, shapes; region "
         "given and inferred; 14-point clouds holding the region corners) followed by: point clouds of 1..60 points (uniform, clustered so that interior blocks stay empty, regular grids given as "
         "2-D arrays, every point its own block, all points in one block) on a dyadic lattice; data of 1..3 components "
@@ -178,6 +182,104 @@ def params_snapshot(est):
     return {k: (v if callable(v) else repr(v)) for k, v in est.get_params().items()}
 
 
+CONFIG_MODES = ["ctor", "set_params", "attr", "clone", "change"]
+OPTION_DEFAULTS = dict(spacing=None, region=None, adjust="spacing", center_coordinates=False, shape=None, drop_coords=True)
+_COUNTER = [0]
+
+
+def next_mode():
+    """configuration routes in fixed shares (one fifth each), cycling over every stream in generation order;
+    returns (mode, step) - step selects which options a 'change' case alters"""
+    k = _COUNTER[0]
+    _COUNTER[0] += 1
+    return CONFIG_MODES[k % len(CONFIG_MODES)], k // len(CONFIG_MODES)
+
+
+def configured(vd, cls_name, opts, mode, step=0, first=None):
+    """an estimator whose options in force are `opts` (reduction included for BlockReduce), reached by
+    ctor        constructor arguments
+    set_params  construction with deliberately different options, then set_params(**all options)
+    attr        construction with deliberately different options, then plain attribute assignment of every option
+    clone       sklearn.base.clone of a configured instance
+    change      construction with some options different, one filter() call (on `first`), then those options are
+                changed (set_params / attribute assignment alternately) - the next filter() must follow the new ones"""
+    import sklearn.base
+    cls = getattr(vd, cls_name)
+    full = dict(OPTION_DEFAULTS)
+    if cls_name == "BlockMean":
+        full["uncertainty"] = False
+    full.update(opts)
+    if mode == "ctor":
+        return cls(**opts)
+    if mode == "clone":
+        return sklearn.base.clone(cls(**opts))
+    decoy = dict(spacing=3.0 if full["spacing"] == 7.0 else 7.0, region=(-100.0, 100.0, -100.0, 100.0),
+                 adjust="region" if full["adjust"] == "spacing" else "spacing",
+                 center_coordinates=not full["center_coordinates"], shape=None if full["shape"] is not None else (2, 2),
+                 drop_coords=not full["drop_coords"])
+    if "uncertainty" in full:
+        decoy["uncertainty"] = not full["uncertainty"]
+    if "reduction" in full:
+        decoy["reduction"] = np.max if full["reduction"] is not np.max else np.min
+    if mode == "set_params":
+        est = cls(**decoy)
+        est.set_params(**full)
+        return est
+    if mode == "attr":
+        est = cls(**decoy)
+        for k, v in full.items():
+            setattr(est, k, v)
+        return est
+    if mode == "change":
+        names = sorted(full)
+        # alter one option (cycling over all of them) and, every other time, a second one
+        alter = [names[step % len(names)]] + ([names[(step * 3 + 1) % len(names)]] if step % 2 else [])
+        start = dict(full)
+        for k in alter:
+            start[k] = decoy[k]
+        if start["shape"] is not None and start["spacing"] is not None:     # keep the first call well-formed
+            start["spacing" if "shape" in alter else "shape"] = None
+            alter = sorted(set(alter) | {"spacing", "shape"})
+        est = cls(**start)
+        if first is not None:
+            try:
+                est.filter(*first)
+            except Exception:
+                pass
+        if step % 2:
+            est.set_params(**{k: full[k] for k in alter})
+        else:
+            for k in alter:
+                setattr(est, k, full[k])
+        return est
+    raise ValueError(mode)
+
+
+def _call_args(coords, data, weights, tuple1):
+    d = tuple(data) if len(data) != 1 or tuple1 else data[0]
+    w = None if weights is None else (tuple(weights) if len(weights) != 1 else weights[0])
+    return tuple(coords), d, w
+
+
+def replay(cls_name, red, opts, mode, step, twice, tuple1, coords, data, weights):
+    """re-run one observation (used by the repro strings of the cases)"""
+    import verde as vd
+    opts = dict(opts)
+    if cls_name == "BlockReduce":
+        opts["reduction"] = getattr(np, red)
+    c, d, w = _call_args(coords, data, weights, tuple1)
+    est = configured(vd, cls_name, opts, mode, step, first=(c, d, w))
+    before = params_snapshot(est)
+    if twice:
+        try:
+            est.filter(*first_call_args(coords, data, weights, True))
+        except Exception as exc:
+            print("first call:", exc)
+    print("configured by %s%s:" % (mode, " + reused" if twice else ""), est.filter(c, d, w))
+    print("get_params unchanged by filter:", params_snapshot(est) == before)
+    print("fresh instance from the constructor:", getattr(vd, cls_name)(**opts).filter(c, d, w))
+
+
 def _same(a, b):
     """bitwise-equal results (tuples of arrays / arrays)"""
     if isinstance(a, tuple) != isinstance(b, tuple):
@@ -188,16 +290,17 @@ def _same(a, b):
     return a.shape == b.shape and a.dtype == b.dtype and a.tobytes() == b.tobytes()
 
 
-def observe(vd, red, coords, data, weights, kw, tuple1=False, twice=False):
+def observe(vd, red, coords, data, weights, kw, tuple1=False, twice=False, mode="ctor", step=0):
     """run the real code; returns ('ok', coords_list, data_list) | ('ValueError',) | ('other', name).
-    twice: the instance has already filtered other data; its result must be that of a fresh instance"""
+    twice: the instance has already filtered other data; its result must be that of a fresh instance;
+    mode/step: how the options were put in force (see configured)"""
     stale = False
     params_ok = True
     try:
-        br = vd.BlockReduce(getattr(np, REDS[red][3:]), **kw)
+        opts = dict(kw, reduction=getattr(np, REDS[red][3:]))
+        c_, d, w = _call_args(coords, data, weights, tuple1)
+        br = configured(vd, "BlockReduce", opts, mode, step, first=(c_, d, w))
         params = params_snapshot(br)
-        d = tuple(data) if len(data) != 1 or tuple1 else data[0]
-        w = None if weights is None else (tuple(weights) if len(weights) != 1 else weights[0])
         if twice:
             try:
                 br.filter(*first_call_args(coords, data, weights, True))
@@ -208,7 +311,7 @@ def observe(vd, red, coords, data, weights, kw, tuple1=False, twice=False):
             oc, od = br.filter(tuple(coords), d, w)
         finally:
             params_ok = params_ok and params_snapshot(br) == params
-        if twice:
+        if twice or mode != "ctor":
             fresh = vd.BlockReduce(getattr(np, REDS[red][3:]), **kw).filter(tuple(coords), d, w)
             stale = not _same((tuple(oc), od), (tuple(fresh[0]), fresh[1]))
     except ValueError:
@@ -239,7 +342,10 @@ def make_case(vd, red, coords, data, weights, kw, kind, expect_valid=True):
         labels = list(range(np.asarray(coords[0]).size))
         centres = (np.zeros(1), np.zeros(1))
         split_ok = False
-    obs = observe(vd, red, coords, data, weights, kwc, bool(kw.get("_tuple1")), bool(kw.get("_twice")))
+    mode, step = kw.get("_mode") or next_mode()
+    if not expect_valid:
+        mode = "ctor"
+    obs = observe(vd, red, coords, data, weights, kwc, bool(kw.get("_tuple1")), bool(kw.get("_twice")), mode, step)
     tags = list(kw.get("_layouts") or []) + ["C"] * 16
     tc, td, tw = tags[:len(coords)], tags[len(coords):len(coords) + len(data)], tags[len(coords) + len(data):]
     cw = "None" if weights is None else "(Some %s)" % _cdll(weights)
@@ -257,25 +363,17 @@ def make_case(vd, red, coords, data, weights, kw, kind, expect_valid=True):
     for v in labels:
         counts[v] = counts.get(v, 0) + 1
     nontrivial = obs[0] == "ok" and len(counts) >= 2 and max(counts.values()) >= 2
-    repro = ("import numpy as np, verde; print(verde.BlockReduce(%s, **%r).filter((%s,), (%s,), %s))" % (
-        REDS[red], kwc, ", ".join(_fmt(c, t) for c, t in zip(coords, tc)), ", ".join(_fmt(d, t) for d, t in zip(data, td)),
-        "None" if weights is None else "(%s,)" % ", ".join(_fmt(w, t) for w, t in zip(weights, tw))))
-    if kw.get("_twice"):
-        repro = ("import numpy as np, verde; from harness.c09 import first_call_args; c = (%s,); d = (%s,); w = %s; "
-                 "br = verde.BlockReduce(%s, **%r); p = br.get_params(); br.filter(*first_call_args(c, d, w, True)); "
-                 "print(br.filter(c, d if len(d) > 1 else d[0], w if w is None or len(w) > 1 else w[0])); "
-                 "print('fresh:', verde.BlockReduce(%s, **%r).filter(c, d if len(d) > 1 else d[0], w if w is None or len(w) > 1 else w[0])); "
-                 "print('get_params unchanged:', br.get_params() == p)" % (
-                     ", ".join(_fmt(c, t) for c, t in zip(coords, tc)), ", ".join(_fmt(d, t) for d, t in zip(data, td)),
-                     "None" if weights is None else "(%s,)" % ", ".join(_fmt(w, t) for w, t in zip(weights, tw)),
-                     REDS[red], kwc, REDS[red], kwc))
+    repro = ("import numpy as np; from harness.c09 import replay; replay('BlockReduce', %r, %r, %r, %d, %r, %r, [%s], [%s], %s)" % (
+        REDS[red][3:], kwc, mode, step, bool(kw.get("_twice")), bool(kw.get("_tuple1")),
+        ", ".join(_fmt(c, t) for c, t in zip(coords, tc)), ", ".join(_fmt(d, t) for d, t in zip(data, td)),
+        "None" if weights is None else "[%s]" % ", ".join(_fmt(w, t) for w, t in zip(weights, tw))))
     inp = {"reduction": REDS[red], "kwargs": kwc, "coordinates": [np.asarray(c).tolist() for c in coords],
            "data": [np.asarray(d).tolist() for d in data],
            "weights": None if weights is None else [np.asarray(w).tolist() for w in weights],
            "labels_from_block_split": labels,
            "dtypes": [str(np.asarray(a).dtype) for a in list(coords) + list(data) + (list(weights) if weights is not None else [])],
            "layouts": kw.get("_layouts"), "instance_reused": bool(kw.get("_twice")),
-           "weight_patterns": kw.get("_wpatterns")}
+           "weight_patterns": kw.get("_wpatterns"), "configured_by": mode, "config_step": step}
     out = [obs[0]] + ([[a.tolist() for a in obs[1]], [a.tolist() for a in obs[2]]] if obs[0] == "ok" else list(obs[1:-1])) \
         + [{"get_params_unchanged": bool(obs[-1])}]
     return Case(inp, out, term, repro, kind, nontrivial=nontrivial)
@@ -641,6 +739,7 @@ def malformed(rnd, vd):
 def generate(tier, seed):
     import verde as vd
     rnd = random.Random(seed)
+    _COUNTER[0] = 0
     cases = []
     for cfg in edge_cases(rnd, vd):
         cases.append(make_case(vd, *cfg, kind="edge"))
